@@ -8,6 +8,7 @@ from .._code_repr import value_code_repr
 from .._sentinels import undefined
 from .._unmanaged import Unmanaged
 from .._unmanaged import update_allowed
+from .._utils import normalize
 from .._utils import value_to_token
 from ..syntax_warnings import InlineSnapshotInfo
 from .adapter import Adapter
@@ -61,7 +62,8 @@ class ValueAdapter(Adapter):
             and update_allowed(old_value)
             # the parts which are controlled by the user are not changed
             and not contains_unmanaged(old_value, old_node, with_node=True)
-            and self.context.file._token_of_node(old_node) != new_token
+            # the tokens of the node are normalized (trailing commas like in `(1,)`)
+            and self.context.file._token_of_node(old_node) != list(normalize(new_token))
         ):
             flag = "update"
         else:
